@@ -464,7 +464,13 @@ class Interp:
         if "closure" in o:
             return Closure(o["closure"], {})
         bits = int(o["bits"]) if o.get("bits") is not None else None
-        return Const(o["ty"], bits, o.get("str"), o.get("text"), o.get("named"))
+        s_ = o.get("str")
+        if bits is None and s_ is None and o.get("named") and o["named"] in self.fb.consts:
+            # a crate-local named constant used before evaluation: take the value the compiler computed for the item
+            c = self.fb.consts[o["named"]]
+            bits = int(c["bits"]) if c.get("bits") is not None else None
+            s_ = c.get("str")
+        return Const(o["ty"], bits, s_, o.get("text"), o.get("named"))
 
     def eval_promoted(self, key):
         """Value of a promoted constant (`&Paren::Close`, `&Some(true)`, ...): its tiny MIR body is interpreted."""
@@ -950,6 +956,10 @@ class Interp:
         "std::option::Option::<T>::or_else": ("opt", {"Some": ("same",), "None": ("call", 1, False, None)}),
         "std::option::Option::<T>::or": ("opt", {"Some": ("same",), "None": ("arg", 1, None)}),
         "std::option::Option::<T>::filter": ("opt", {"Some": ("filter", 1), "None": ("const", "None")}),
+        "std::option::Option::<T>::is_none_or": ("opt", {"Some": ("call", 1, True, None), "None": ("bool", 1)}),
+        "std::option::Option::<T>::is_some_and": ("opt", {"Some": ("call", 1, True, None), "None": ("bool", 0)}),
+        "std::result::Result::<T, E>::is_ok_and": ("res", {"Ok": ("call", 1, True, None), "Err": ("bool", 0)}),
+        "std::result::Result::<T, E>::is_err_and": ("res", {"Ok": ("bool", 0), "Err": ("call", 1, True, None)}),
         "std::option::Option::<T>::is_some": ("opt", {"Some": ("bool", 1), "None": ("bool", 0)}),
         "std::option::Option::<T>::is_none": ("opt", {"Some": ("bool", 0), "None": ("bool", 1)}),
         "std::result::Result::<T, E>::is_ok": ("res", {"Ok": ("bool", 1), "Err": ("bool", 0)}),
